@@ -166,7 +166,7 @@ PROPS = {
     },
     "C14": {
         "modules": ["PgBifrost.Props.C14"],
-        "components": ["kafka", "batch"],
+        "components": ["kafka", "batch", "plumbing"],
         "required_theorems": ["PgBifrost.Props.C14.kafka_written_iff_all_ok", "PgBifrost.Props.C14.kafka_failstop",
                               "PgBifrost.Props.C14.kafka_key_by_method", "PgBifrost.Props.C14.kafka_toobig_counted",
                               "PgBifrost.Props.C14.kafka_methods_as_documented", "PgBifrost.Props.C14.kafka_iteration_as_in_source"],
